@@ -381,7 +381,7 @@ func firstLine(s string) string {
 
 func TestCheck(t *testing.T) {
 	r := vp.New("C11", "exploration",
-		"collections: every subset of 8 distinct protocol IDs (bitswap, graphsync-filecoin, gateway, 5 unknown codes) of size 1..N in every construction order; every variant combination (8 graphsync values, unknown payload lengths) for subsets of size <=K in sorted and reversed order; collections with repeated IDs. Decoder: for every corpus encoding every single-byte substitution, every truncation, every boundary varint written at every byte offset over 1..3 bytes, two-protocol out-of-order concatenations, and all byte strings of length <=2. Non-trivial: collections of >=2 protocols; decoder inputs other than the unmodified corpus.",
+		"collections: every subset of 8 distinct protocol IDs (bitswap, graphsync-filecoin, gateway, 5 unknown codes) of size 1..N in every construction order; every variant combination (8 graphsync values, unknown payload lengths) for subsets of size <=K in sorted and reversed order; collections with repeated IDs. Decoder: for every corpus encoding every single-byte substitution, every truncation, every boundary varint written at every byte offset over 1..3 bytes, unknown-protocol headers declaring every length of the systematic set (2^k-1, 2^k, 2^k+1 for all k; the 25 values below 2^63 and below 2^64; the size limit +-12) for 6 codes x 3 tails; unknown payloads of every length 0..MaxMetadataSize; two-protocol out-of-order concatenations, and all byte strings of length <=2. Non-trivial: collections of >=2 protocols; decoder inputs other than the unmodified corpus.",
 		"unknown protocols are constructed the way the decoder builds them (payload holds code, length prefix and data)",
 		"collections with repeated IDs are only required to be ID-sorted and to round-trip as a multiset (order among equal IDs is not defined by the statement)",
 		"allocation bound used: 64 KiB + 64 x input length, measured with runtime/metrics /gc/heap/allocs:bytes (span-granular for small objects)",
@@ -467,6 +467,17 @@ func TestCheck(t *testing.T) {
 		permute(d, func(p []proto) { checkCollection(r, p, false) })
 	}
 
+	// (d) unknown protocols with every payload length up to the size limit the
+	// library declares (MaxMetadataSize): alone and next to a known protocol
+	for _, code := range []multicodec.Code{0x01e0, 0x300000} {
+		for n := 0; n <= metadata.MaxMetadataSize; n++ {
+			checkCollection(r, []proto{unknownProto(code, n)}, true)
+			if n%64 <= 1 || n >= metadata.MaxMetadataSize-8 {
+				checkCollection(r, []proto{pGateway, unknownProto(code, n), pBitswap}, true)
+			}
+		}
+	}
+
 	// decoder inputs
 	dec := &decoder{r: r, iso: &vp.Isolate{}}
 	defer dec.iso.Close()
@@ -475,7 +486,26 @@ func TestCheck(t *testing.T) {
 		keys = append(keys, k)
 	}
 	sort.Strings(keys)
-	boundary := []uint64{0, 1, 2, 127, 128, 1024, 1025, 1 << 16, 1 << 20, 1 << 24, 1 << 26, 1 << 31, 1 << 40, 1 << 62, 1 << 63, 1<<64 - 1}
+	boundary := []uint64{0, 1, 2, 127, 128, 1024, 1025, 1 << 16, 1 << 20, 1 << 24, 1 << 26, 1 << 31, 1 << 40, 1 << 62, 1<<63 - 12, 1<<63 - 2, 1<<63 - 1, 1 << 63, 1<<64 - 1}
+	// the systematic set for declared lengths: 2^k-1, 2^k, 2^k+1 for every k,
+	// the values just below 2^63 (the largest the varint reader accepts; sums
+	// with a header size wrap there) and around the declared size limit
+	lengthSet := map[uint64]bool{}
+	for k := uint(0); k < 64; k++ {
+		for _, d := range []uint64{^uint64(0), 0, 1} { // -1, 0, +1
+			lengthSet[(uint64(1)<<k)+d] = true
+		}
+	}
+	for d := uint64(0); d <= 24; d++ {
+		lengthSet[1<<63-1-d] = true
+		lengthSet[^uint64(0)-d] = true
+		lengthSet[uint64(metadata.MaxMetadataSize)-12+d] = true
+	}
+	var lengths []uint64
+	for v := range lengthSet {
+		lengths = append(lengths, v)
+	}
+	sort.Slice(lengths, func(i, j int) bool { return lengths[i] < lengths[j] })
 	maxCorpus := 40
 	if thorough {
 		maxCorpus = 400
@@ -523,7 +553,7 @@ func TestCheck(t *testing.T) {
 	}
 	// hostile prefixes for unknown protocols: code then length
 	for _, code := range []uint64{0x01e0, 0x0930, 0x300000, 0, 1, 1<<63 - 1} {
-		for _, v := range boundary {
+		for _, v := range lengths {
 			for _, tail := range [][]byte{nil, {1}, bytes.Repeat([]byte{7}, 64)} {
 				m := append(varint.ToUvarint(code), varint.ToUvarint(v)...)
 				m = append(m, tail...)
